@@ -3,6 +3,8 @@
 (* yielded).  One transition per input token: the code-faithful machine decides keep/drop,    *)
 (* the recorded output must agree (aligned by the pointer o), and every drop is judged by     *)
 (* MayOmit; an illegal drop that a listed deviation explains is a finding, otherwise reject.  *)
+(* Traces with judge = FALSE (artificial concatenations used to expose hidden state in the    *)
+(* filter object) are only compared with the machine.                                         *)
 EXTENDS OptionalTags, TLC, Json, IOUtils
 Traces == JsonDeserialize(IOEnv.TRACE_FILE)
 VARIABLES tid, l, o, open, mask, found, verdict
@@ -29,7 +31,7 @@ Step ==
                                  THEN MayOmitStart(inp, l, m2 \o [i \in 1..(Len(inp) - l) |-> TRUE])
                                  ELSE MayOmitEnd(inp, l)
                         ex == {d \in KnownDefects : ~Drops(tok, At(inp, l - 1), At(inp, l + 1), par, KnownDefects \ {d})}
-                    IN IF legal THEN /\ l' = l + 1 /\ open' = newopen /\ mask' = m2 /\ UNCHANGED <<tid, o, found, verdict>>
+                    IN IF legal \/ ~tr.judge THEN /\ l' = l + 1 /\ open' = newopen /\ mask' = m2 /\ UNCHANGED <<tid, o, found, verdict>>
                        ELSE IF ex # {} THEN /\ l' = l + 1 /\ open' = newopen /\ mask' = m2 /\ found' = found \cup ex
                                             /\ UNCHANGED <<tid, o, verdict>>
                        ELSE verdict' = "reject:property" /\ UNCHANGED <<tid, l, o, open, mask, found>>
